@@ -365,7 +365,8 @@ CHECKS["C08"] = dict(
     props=[dict(name="TestPropToldOfForeignChanges", quick=480, thorough=16 * 2500, shards_quick=12, shards_thorough=16, timeout_quick=900, timeout_thorough=7200)],
     rule="a real instance plus client.NewManager for a harness-defined node type Probe (description, value, string slice, map, "
          "edge fields, child list probeKid) whose instrumented client records every Points/EdgePoints callback; tree: P "
-         "under the root with two probeKid children, a grandchild, and an unrelated sibling. After P runs (warm-up handshake) "
+         "under the root with two probeKid children, a grandchild, and an unrelated sibling; in a third of the cases P is "
+         "also mirrored under a group, so two clients run and both logs are checked. After P runs (warm-up handshake) "
          "10-40 batches are written with acknowledgement, each with one origin from {\"\", P, a child, the sibling, a user} "
          "to a target from {P, children, grandchild, sibling, root} (node points of declared and undeclared types, keys into "
          "the slice/map) or non-structural edge points on five edges, timestamps increasing; a final foreign batch is the "
